@@ -20,8 +20,8 @@ VARIABLE l
 vars == <<l>>
 R == Trace[l]
 
-Chk(ok, key) == ok \/ PrintT(<<"VERIF-BAD", l, key>>)
-Drift(ok, key) == ok \/ PrintT(<<"VERIF-DRIFT", l, key>>)
+Chk(ok, key) == IF ok THEN TRUE ELSE PrintT(<<"VERIF-BAD", l, key>>)
+Drift(ok, key) == IF ok THEN TRUE ELSE PrintT(<<"VERIF-DRIFT", l, key>>)
 
 -----------------------------------------------------------------------------
 Shape(s) == IF AllZero(s) THEN "empty"
